@@ -1,11 +1,11 @@
 #!/bin/sh
 # usage: tools/seed_batch.sh C07 C17 ...   (verifies each seed of each worktree, runs all checks against it)
-for w in "$@"; do for s in seed1 seed2; do
-  [ -f /tmp/wt_$w/SEED/$s/patch.diff ] || continue
+D="${SEEDDIR:-SEED}"; for w in "$@"; do for s in seed1 seed2; do
+  [ -f /tmp/wt_$w/$D/$s/patch.diff ] || continue
   echo "=================== $w $s"
   PY=/venv/bin/python
-  grep -l "pyenv/versions/3.9" /tmp/wt_$w/SEED/$s/notes.md >/dev/null 2>&1 && grep -o "/root/.pyenv/versions/[0-9.]*/bin/python3" /tmp/wt_$w/SEED/$s/notes.md | head -1 > /tmp/pyver.txt && PY=$(cat /tmp/pyver.txt)
+  grep -l "pyenv/versions/3.9" /tmp/wt_$w/$D/$s/notes.md >/dev/null 2>&1 && grep -o "/root/.pyenv/versions/[0-9.]*/bin/python3" /tmp/wt_$w/$D/$s/notes.md | head -1 > /tmp/pyver.txt && PY=$(cat /tmp/pyver.txt)
   echo "(demo python: $PY)"
   /verif/tools/verify_seed.sh /tmp/wt_$w $s $PY 2>&1 | grep -v "^  " | head -12
-  /verif/tools/run_seed.py /tmp/wt_$w/SEED/$s/patch.diff 2>&1 | tail -8 | cut -c1-330
+  /verif/tools/run_seed.py /tmp/wt_$w/$D/$s/patch.diff 2>&1 | tail -8 | cut -c1-330
 done; done
